@@ -16,7 +16,7 @@ PROPS = {
               "Non-trivial: length mismatch, window strictly inside its root, partial last frame with >=2 channels, "
               "nil/empty/uneven striped member, S != B, or write-then-read round trip. Distinct = distinct 64-bit "
               "fingerprint of the canonical case."
-          " Fixtures are built in three construction orders (fill-then-slice, slice-then-fill, fill through an alias); caller slices are windows of larger caller-owned arrays whose tails are compared too; channel counts reach 140; values representable in both types include short-mantissa integers up to the integer type's range and +0/-0; sweeps add 65536+k-sample buffers. Window content may also be appended in two pieces (single samples, then an in-place Append of the rest) so that both pieces end in partial frames."),
+          " Fixtures are built in three construction orders (fill-then-slice, slice-then-fill, fill through an alias); caller slices are windows of larger caller-owned arrays whose tails are compared too; channel counts reach 140; values representable in both types include short-mantissa integers up to the integer type's range and +0/-0; sweeps add 65536+k-sample buffers. Window content may also be appended in two pieces (single samples, then an in-place Append of the rest) so that both pieces end in partial frames. Further windows of the same parent are cut while the window under test is alive; nine slice/buffer pairs use named element types; channel counts around 256 are swept."),
         quick=dict(rapid=dict(checks=100000, shards=8)),
         thorough=dict(rapid=dict(checks=400000, shards=16), fuzz=dict(targets=["FuzzC01"], seconds=45)),
         assumptions=COMMON_ASSUME,
@@ -42,7 +42,7 @@ PROPS["C02"] = dict(
     assumptions=COMMON_ASSUME,
     technique="property-based testing (rapid) + bounded-exhaustive two-level sweep against a Go-slice view model with bidirectional sharing probes",
     level_text=("Generated-input search over nested Slice chains, valid and invalid, against an (offset,len,cap) model; exhaustive for "
-                "C<=3, K<=3 (5 thorough) over all first- and second-level ranges in [-2,K+2]^2 for all 13 types; extreme arguments sampled."),
+                "C<=3, K<=3 (5 thorough) over all first- and second-level ranges in [-2,K+2]^2 for all 13 types; extreme arguments sampled. Three named element types; channel counts around 256 and 65536 are swept."),
     level_note="Trusts Alloc and Sample/SetSample to build and observe fixtures; panics are observed with recover().",
 )
 PROPS["C03"] = dict(
@@ -60,7 +60,7 @@ PROPS["C03"] = dict(
     assumptions=COMMON_ASSUME,
     technique="property-based testing (rapid) + bounded-exhaustive sweep against a plain-slice storage model with aliasing views and independence stamps",
     level_text=("Generated-input search over destination/source shape combinations and repeated appends against a storage-graph model; "
-                "exhaustive for C<=3, roots <=3 (4) frames, all admissible sources and a second append, for 6 types; larger shapes sampled."),
+                "exhaustive for C<=3, roots <=3 (4) frames, all admissible sources and a second append, for 6 types; larger shapes sampled. Three named element types; channel counts around 256 are swept."),
     level_note="Capacity after growth is read from the implementation and only constrained (>= Len, multiple of channels), as the property states; trusts Alloc/Slice/Sample to build and observe fixtures.",
 )
 PROPS["C04"] = dict(
@@ -76,7 +76,7 @@ PROPS["C04"] = dict(
     assumptions=COMMON_ASSUME,
     technique="property-based testing (rapid) + bounded-exhaustive sweep against a sequence model with whole-storage frame condition",
     level_text=("Generated call sequences against a sequence model; exhaustive for all 13 types, C<=4, roots <=3 (5) frames, all windows, every call "
-                "count 0..spare+C+1 and far beyond capacity; larger shapes sampled. Buffers produced by a growing Append are tested themselves and through windows of them (capacity of the window not a whole number of frames)."),
+                "count 0..spare+C+1 and far beyond capacity; larger shapes sampled. Buffers produced by a growing Append are tested themselves and through windows of them (capacity of the window not a whole number of frames). Three named element types; channel counts 255..257 and 65535..65537 are swept, 255..513 drawn rarely."),
     level_note="Trusts Alloc/Slice/Sample to build and observe fixtures.",
 )
 
@@ -94,7 +94,7 @@ PROPS["C05"] = dict(
     assumptions=COMMON_ASSUME,
     technique="property-based testing (rapid) + bounded-exhaustive shape sweep: whole-storage frame condition plus metamorphic single-sample re-conversion; direct oracle for float-to-float",
     level_text=("Generated-input search over all 169 instantiations; exhaustive over all window pairs of roots <=2 (3) frames, C<=3, per instantiation; "
-                "values and larger shapes sampled. The numeric correctness of the point function is C06-C09's. Operand content may be appended in two pieces (single samples, then an in-place Append), both ending in partial frames."),
+                "values and larger shapes sampled. The numeric correctness of the point function is C06-C09's. Operand content may be appended in two pieces (single samples, then an in-place Append), both ending in partial frames. 34 instantiations with named element types are part of the table."),
     level_note="The position-wise law compares two contexts of the same conversion; trusts Alloc/Slice/AppendSample/Sample to build fixtures.",
 )
 PROPS["C13"] = dict(
@@ -108,7 +108,7 @@ PROPS["C13"] = dict(
     thorough=dict(rapid=dict(checks=100000, shards=16), fuzz=dict(targets=["FuzzC13"], seconds=20)),
     assumptions=COMMON_ASSUME,
     technique="property-based testing (rapid) + bounded-exhaustive shape sweep with zero-fill and independence stamps",
-    level_text=("Exhaustive over 26 types x C<=8 (16) x all L<=K<=6 (9); larger shapes (C to 64, K to 4096) sampled by rapid. In a third of the pairs nothing is sliced before the first store: direct reads up to the length, fill to capacity by AppendSample, an allocation made afterwards read directly."),
+    level_text=("Exhaustive over 26 types x C<=8 (16) x all L<=K<=6 (9); larger shapes (C to 64, K to 4096) sampled by rapid. In a third of the pairs nothing is sliced before the first store: direct reads up to the length, fill to capacity by AppendSample, an allocation made afterwards read directly. After the pair checks the first allocation grows by an Append: the second and a fresh allocation of the first shape must not notice; Len()/Cap() are compared with the storage itself."),
     level_note="Trusts Slice and Sample/SetSample to observe the capacity region; bit width of int/uint/uintptr is this platform's (64).",
 )
 
@@ -124,7 +124,7 @@ PROPS["C14"] = dict(
     thorough=dict(rapid=dict(checks=150000, shards=16), fuzz=dict(targets=["FuzzC14"], seconds=20)),
     assumptions=COMMON_ASSUME,
     technique="property-based testing (rapid) + exhaustive sweep over channels/indices against harness-computed interleaved positions with whole-storage diff",
-    level_text=("Exhaustive over 13 types x C 1..8 x roots <=6 (9) frames x all windows x every channel x every index; larger parents sampled. In a third of the cases views of the root or of an intermediate window were taken before the parent window was cut. Rare long parents (66000..132000 samples) are probed around interleaved positions 2^16 and 2^17."),
+    level_text=("Exhaustive over 13 types x C 1..8 x roots <=6 (9) frames x all windows x every channel x every index; larger parents sampled. In a third of the cases views of the root or of an intermediate window were taken before the parent window was cut. Rare long parents (66000..132000 samples) are probed around interleaved positions 2^16 and 2^17. Named element types; floating probes are fractions, infinities and a value beyond 2^31."),
     level_note="BufferIndex is called with the view's own channel as first argument (as the repository's test does). Trusts Alloc/Slice and root Sample/SetSample.",
 )
 PROPS["C15"] = dict(
@@ -136,7 +136,7 @@ PROPS["C15"] = dict(
           "Oracle: the call panics; afterwards both operands' whole root storage, headers and the caller's slices are unchanged; for Put the "
           "rejected buffer is intact (not cleared) and the next three Gets return allocator-shaped zeroed buffers. Every case is a mismatch "
           "by construction; distinct = distinct (entry point, types, shapes)."
-          " Operands may end in partial frames; the caller's outer slice may have further per-channel slices behind its length. Operands may hold fewer samples than one frame (1..C-1 single samples in an empty window)."),
+          " Operands may end in partial frames; the caller's outer slice may have further per-channel slices behind its length. Operands may hold fewer samples than one frame (1..C-1 single samples in an empty window). Put of a buffer grown to a partial last frame into a pool of the whole frames below its length; whether a case is a mismatch is decided from the storage's capacity, not from Cap()."),
     quick=dict(rapid=dict(checks=40000, shards=8)),
     thorough=dict(rapid=dict(checks=150000, shards=16), fuzz=dict(targets=["FuzzC15"], seconds=20)),
     assumptions=COMMON_ASSUME,
@@ -160,7 +160,7 @@ PROPS["C20"] = dict(
     assumptions=COMMON_ASSUME,
     technique="bounded-exhaustive cross product of entry points x degenerate shapes + property-based testing (rapid); oracle = no panic, zero counts, whole-state snapshots",
     level_text=("Exhaustive cross product of every exported entry point x every degenerate allocator on a small grid x all types/pairs/instantiations; "
-                "larger degenerate shapes and partner sizes sampled by rapid."),
+                "larger degenerate shapes and partner sizes sampled by rapid. Pooled zero-length buffers are used (AppendSample) before they go back."),
     level_note="For ChannelLength(n>0, 0), a combination no buffer can produce, only 'no panic and a result in [0,n]' is demanded.",
 )
 NUM_ASSUME = COMMON_ASSUME + [
@@ -182,7 +182,7 @@ PROPS["C06"] = dict(
     assumptions=NUM_ASSUME,
     technique="exhaustive enumeration of all 8/16/32-bit source codes in amplitude order + property-based testing (rapid) on 64-bit sources; order and reference-level oracle in exact integer arithmetic",
     level_text=("Complete enumeration of every 8- and 16-bit source code (quick) and every 32-bit source code (thorough) for all destinations decides order "
-                "preservation exactly on those sub-domains; 64-bit sources are sampled densely at boundaries and at random (order is checked on sorted samples). Long and wide at once: 12 channels x 40000 and 64 channels x 70001 samples per pair in the sweep; rapid couples very long buffers with 1..64 channels. Operands may also have grown out of an empty window (Slice(fr,fr) then Append)."),
+                "preservation exactly on those sub-domains; 64-bit sources are sampled densely at boundaries and at random (order is checked on sorted samples). Long and wide at once: 12 channels x 40000 and 64 channels x 70001 samples per pair in the sweep; rapid couples very long buffers with 1..64 channels. Operands may also have grown out of an empty window (Slice(fr,fr) then Append). Named element types (34 further instantiations); a source that was the output of a conversion and is converted through a window cut then (fix 5)."),
     level_note="Order preservation between two arbitrary 64-bit inputs is only sampled; adjacent-code monotonicity on the swept domains implies it there.",
 )
 
@@ -197,7 +197,7 @@ PROPS["C07"] = dict(
     assumptions=NUM_ASSUME,
     technique="exhaustive enumeration of all 8/16/32-bit source codes + property-based testing (rapid) on 64-bit sources; floor/ceil accuracy oracle and widen-then-narrow round trip in exact integer arithmetic",
     level_text=("Complete enumeration of every 8/16-bit (quick) and 32-bit (thorough) source code for all 11 destinations, including every widen-and-back "
-                "composition; 64-bit sources sampled at boundaries and at random. Long and wide at once: 12 channels x 40000 and 64 channels x 70001 samples per pair in the sweep; rapid couples very long buffers with 1..64 channels. Operands may also have grown out of an empty window (Slice(fr,fr) then Append)."),
+                "composition; 64-bit sources sampled at boundaries and at random. Long and wide at once: 12 channels x 40000 and 64 channels x 70001 samples per pair in the sweep; rapid couples very long buffers with 1..64 channels. Operands may also have grown out of an empty window (Slice(fr,fr) then Append). Named element types (34 further instantiations); a source that was the output of a conversion and is converted through a window cut then (fix 5)."),
     level_note="Round trips return to every element type with the source's signedness and depth (int/int64, uint/uint64/uintptr).",
 )
 
@@ -216,7 +216,7 @@ PROPS["C08"] = dict(
     assumptions=NUM_ASSUME + ["NaN inputs are excluded (result unspecified by the property)", "the verdict is for linux/amd64, where the library relies on the platform's float-to-integer conversion for in-range negative inputs to unsigned types"],
     technique="exhaustive enumeration of all float32 bit patterns (thorough) + boundary-dense sweep + property-based testing (rapid) and native fuzzing; clip/linearity/monotonicity oracle decided with exact 128-bit arithmetic",
     level_text=("Every non-NaN float32 input for all 11 float32-source instantiations is enumerated in numeric order (thorough), which decides clipping, accuracy and "
-                "monotonicity exactly there; float64 inputs are sampled densely at the boundaries the property names and at random. Long and wide at once: 12 channels x 40000 and 64 channels x 70001 samples per instantiation in the sweep; rapid couples very long buffers with 1..64 channels. Operands may also have grown out of an empty window (Slice(fr,fr) then Append)."),
+                "monotonicity exactly there; float64 inputs are sampled densely at the boundaries the property names and at random. Long and wide at once: 12 channels x 40000 and 64 channels x 70001 samples per instantiation in the sweep; rapid couples very long buffers with 1..64 channels. Operands may also have grown out of an empty window (Slice(fr,fr) then Append). Named element types (34 further instantiations); a source that was the output of a conversion and is converted through a window cut then (fix 5)."),
     level_note="The one-step tolerance is the property's own; the oracle has no floating tolerance of its own (exact integer comparison).",
 )
 
@@ -234,7 +234,7 @@ PROPS["C09"] = dict(
     assumptions=NUM_ASSUME,
     technique="exhaustive enumeration of all 8/16/32-bit source codes + property-based testing (rapid) on 64-bit sources; range/level/order/accuracy oracle and round trip through the inverse conversion",
     level_text=("Complete enumeration of every 8/16-bit (quick) and 32-bit (thorough) code into both float types, with injectivity and round trips; 64-bit sources "
-                "sampled. One known finding (F9, UnsignedAsFloat) is reported as KNOWN-FINDING and excluded by a structural predicate. Long and wide at once: 12 channels x 40000 and 64 channels x 70001 samples per pair in the sweep; rapid couples very long buffers with 1..64 channels. Operands may also have grown out of an empty window (Slice(fr,fr) then Append)."),
+                "sampled. One known finding (F9, UnsignedAsFloat) is reported as KNOWN-FINDING and excluded by a structural predicate. Long and wide at once: 12 channels x 40000 and 64 channels x 70001 samples per pair in the sweep; rapid couples very long buffers with 1..64 channels. Operands may also have grown out of an empty window (Slice(fr,fr) then Append). Named element types (34 further instantiations); a source that was the output of a conversion and is converted through a window cut then (fix 5)."),
     level_note="'plus float rounding' is taken as 4 ulp of 1 in the destination float type.",
 )
 PROPS["C16"] = dict(
@@ -275,7 +275,7 @@ PROPS["C10"] = dict(
           "Channels/Length/Capacity/Len/Cap/BitDepth equal a fresh Alloc's and every sample over Slice(0,K) is zero; after every step every outstanding buffer "
           "still reads its own ownership stamp plus its own writes over its whole capacity (no shared storage). Non-trivial: a get that returned a recycled "
           "object (pointer previously passed to Put); sub-classes recycled after dirty use, after reslice-to-shorter, with L>0, several outstanding."
-          " A checked-out buffer keeps all its headers (the original and every reslice from frame 0): operations and Put may go through any of them; a header that grows beyond the capacity leaves alone; 'quiet' checkouts are not stamped; floating types get -0.0 among the written values. Burst histories keep up to 40 buffers checked out at once and put them back oldest or newest first; a buffer object returned by Get while a checkout still holds it is a violation."),
+          " A checked-out buffer keeps all its headers (the original and every reslice from frame 0): operations and Put may go through any of them; a header that grows beyond the capacity leaves alone; 'quiet' checkouts are not stamped; floating types get -0.0 among the written values. Burst histories keep up to 40 buffers checked out at once and put them back oldest or newest first; a buffer object returned by Get while a checkout still holds it is a violation. Rare histories on pooled buffers of 65537..70001 samples; two named element types; the storage's own length and capacity (read by reflection) must agree with Len()/Cap()."),
     quick=dict(rapid=dict(checks=20000, shards=8)),
     thorough=dict(rapid=dict(checks=50000, shards=16), fuzz=dict(targets=["FuzzC10"], seconds=30)),
     assumptions=COMMON_ASSUME + ["sync.Pool hands a just-put object back to the same goroutine almost always; the class histogram in the evidence shows how often a recycled buffer was observed"],
@@ -336,7 +336,7 @@ PROPS["C11"] = dict(
     technique="randomised concurrent stress under the Go race detector with rapid-generated configurations (goroutines, GOMAXPROCS, yield points, GC); freshness and ownership-stamp oracle",
     level_text=("Schedule sampling, not enumeration: rapid generates the concurrency configuration, the Go scheduler picks the interleaving. Decisive for the realistic defect classes "
                 "(unsynchronised shared state in the pool, shared buffers handed out twice) through the race detector and ownership stamps; a defect needing one specific "
-                "preemption point is out of reach (DESIGN.md section 6). Goroutines hold 1..4 buffers at the same time (released in get order or newest first); hammer cases run thousands of cycles on tiny buffers, a third of them with a shared ownership table."),
+                "preemption point is out of reach (DESIGN.md section 6). Goroutines hold 1..4 buffers at the same time (released in get order or newest first); hammer cases run thousands of cycles on tiny buffers, a third of them with a shared ownership table; a third of the cases put back a Slice(0,k) view instead of the buffer; the bookkeeping keeps no pointer to a buffer that went back."),
     level_note="Race reports are turned into violations with the process log as the replay artefact; so is an abort of the race build's pointer checker (checkptr) whose innermost non-runtime frame is in pipelined.dev/signal.",
 )
 FIRSTUSE = [dict(name="firstuse-" + t, run="TestFirstUse", env={"VERIF_FIRST_TYPE": t})
@@ -358,7 +358,7 @@ PROPS["C19"] = dict(
                                  "the race detector reports unordered conflicting accesses that actually executed"],
     technique="randomised concurrent stress under the Go race detector with rapid-generated reader/writer scripts; differential oracle against the sequential execution of the same scripts",
     level_text=("Schedule sampling, not enumeration. Hidden shared mutable state in a read path or a write outside a slice's window is an unordered conflicting access, which the race "
-                "detector reports whenever both accesses execute, whatever the interleaving; results are also compared with a sequential run. A fifth of the cases use 5..17 (rarely 60..70) channels; the sweep includes 9 and 16."),
+                "detector reports whenever both accesses execute, whatever the interleaving; results are also compared with a sequential run. A fifth of the cases use 5..17 (rarely 60..70) channels; the sweep includes 9 and 16. Writer windows may reach into the spare capacity, with a boundary right behind a partial last frame; reader results are rendered without package fmt (its pooled printers would order the goroutines)."),
     level_note="Race reports are turned into violations with the process log as the replay artefact; so is an abort of the race build's pointer checker (checkptr) whose innermost non-runtime frame is in pipelined.dev/signal.",
 )
 
